@@ -150,7 +150,7 @@ func (w *World) runLTA() *LTA {
 	for i := 0; i < st.NumFields(); i++ {
 		f := st.Field(i)
 		if b, ok := f.Type().Underlying().(*types.Basic); ok && b.Kind() == types.Bool && len(a.boolIdx) < nBools {
-			a.boolIdx[f.Name()] = len(a.boolIdx)
+			a.boolIdx[pinnedFieldName(a.procT, st, i)] = len(a.boolIdx)
 		}
 	}
 	for _, f := range w.MethodsOf("actor", "process") {
